@@ -438,6 +438,43 @@ OPS = {   # every property exercises the root specification with the calls IT ta
 }
 
 
+def empty_override_scenarios(rnd, n):
+    """Targeted histories for C01: a file of higher priority that defines a key WITHOUT a value (`KEY=`, `KEY`-less forms excluded)
+    overrides the value a lower file gave it - in the main file of the higher layer, in a drop-in, inside a section and outside;
+    read through the two-directory read and the general one, then every key is asked for and the object dumped."""
+    hs = []
+    for i in range(n):
+        m = Mixed(rnd, 600 + i, ops={"readdirs", "readconfig", "get"})
+        m.script.append("mkdir %s" % hx(m.R + "/out"))
+        m.conv.append(None)
+        low = ["A=1", "B=two words", "[S]", "C=3", "D=4"]
+        tree = {"/usr/etc/cfg.conf": low}
+        over = rnd.sample(["A", "B", "C", "D"], rnd.randint(1, 3))
+        for j, k in enumerate(over):
+            f = rnd.choice(["/etc/cfg.conf", "/usr/etc/cfg.conf.d/a.conf", "/etc/cfg.conf.d/a.conf", "/etc/cfg.conf.d/b.conf"])
+            lines = tree.setdefault(f, [])
+            sec = k in "CD"
+            if sec and "[S]" not in lines:
+                lines.append("[S]")
+            if not sec and "[S]" in lines:
+                lines.insert(lines.index("[S]"), k + rnd.choice(["=", " =", "= "]))
+            else:
+                lines.append(k + rnd.choice(["=", " =", "= "]))
+        for f, lines in sorted(tree.items()):
+            m.files.add(f)
+            m.seen_by[f] = [(None, "A"), (None, "B"), ("S", "C"), ("S", "D")]
+            m.add("file %s %s" % (hx(m.R + f), hx("\n".join(lines) + "\n")), None)
+            m.script.append("echo f")
+            m.conv.append(lambda ev, root, f=f, lines=lines: [{"e": "file", "path": codes(f), "lines": [codes(x) for x in lines]}])
+        m.op_readdirs(1)
+        m.op_dump(1)
+        for g, k in ((None, "A"), ("", "B"), ("S", "C"), ("[S]", "D")):
+            m.op_get_exact(1, g, k)
+        m.op_free(1)
+        hs.append(m)
+    return hs
+
+
 def quoted_scenarios(rnd, n):
     """Targeted histories for the writer's quoting decision (C07): a parsed file that BEGINS with a section and holds values which
     need their quotes (outer blanks, a comment character inside), next to plain ones in varying order; then group-less keys are set
@@ -550,6 +587,8 @@ def join_scenarios(rnd, n):
 
 def run_mixed(exe, rnd, n, verdict, pid, nops=(10, 60), comments=False):
     hs = [Mixed(rnd, i, ops=OPS.get(pid), comments=comments, errloc=(pid in ("C13", "ALL")), bad_rate=0.4 if pid == "C13" else (0.06 if pid == "ALL" else 0.0)).build(rnd.randint(*nops)) for i in range(n)]
+    if pid == "C01":
+        hs += empty_override_scenarios(rnd, max(40, n // 4))
     if pid == "C07":
         hs += quoted_scenarios(rnd, max(40, n // 3))
     if pid == "C10":
